@@ -18,7 +18,8 @@ from harness import core, dsrun
 from harness.workers.devices_idx import names_for, numeric_shapes
 from harness.workers.ds_trace import spec_cfg
 
-TOL = {"stats_xD": 1e-5, "roots_xD": 1e-3, "upd_xD": 1e-3}
+TOL = {"stats_xD": 1e-5, "roots_xD": 1e-3, "upd_xD": 1e-3,
+       "stats_shard_vs_unsharded": 1e-4, "roots_shard_vs_unsharded": 5e-3}
 
 
 def _rel(a, b):
@@ -74,6 +75,18 @@ def handle(job):
   ncompared = 0
   nstat = None
   assert Ds[0] == 1
+  unsh = None
+  if mode == "shard":
+    # the unsharded optimizer on one device: what every row of the global arrays must denote
+    # (statistics and stored roots after each step; the sharded update itself applies the roots one
+    # step late, so updates are compared across D only)
+    try:
+      _, ukept, _ = dsrun.trace_run(dict(o, mode="rep"), shapes, classes, seed, keep=True)
+      unsh = ukept
+    except Exception as e:
+      return {"error": {"D": 0, "error": f"{type(e).__name__}: {e}"[:400], "kind": core.classify_exception(e),
+                        "tb": traceback.format_exc()[-1500:]},
+              "mismatches": mism, "worst": worst, "traces": [], "nstat": nstat, "ncompared": ncompared}
   for D in Ds:
     oD = dict(o, D=D)
     try:
@@ -136,6 +149,23 @@ def handle(job):
            "roots": [[dense(x, s, crank) for x, s in zip(kp["precs"], sizes)] for kp in kept],
            "upd": [[kp["upd"][f"p{i}"] for i in range(n)] for kp in kept],
            "raw_equal": [kp["sh"] + kp["ph"] for kp in kept]}
+    if unsh is not None and D == 1:
+      for t in range(T):
+        us = {"stats": [np.asarray(x, np.float64) for x in unsh[t]["stats"]],
+              "roots": [dense(x, s, crank) for x, s in zip(unsh[t]["precs"], sizes)]}
+        for key, what in (("stats", "stats_shard_vs_unsharded"), ("roots", "roots_shard_vs_unsharded")):
+          if len(us[key]) != len(cur[key][t]):
+            mism.append({"clause": f"{key}_count_differs_from_unsharded", "D": D, "step": t,
+                         "detail": [len(cur[key][t]), len(us[key])]})
+            continue
+          for q, (a, b) in enumerate(zip(cur[key][t], us[key])):
+            d = _rel(a, b)
+            ncompared += 1
+            if d > TOL[what]:
+              mism.append({"clause": f"{key}_rows_differ_from_unsharded_optimizer", "D": D, "step": t,
+                           "detail": {"index": q, "rel": d}})
+            else:
+              worst[what] = max(worst[what], d)
     if D == 1:
       ref = cur
       continue
